@@ -44,6 +44,7 @@ type Conn struct {
 	peer        *Conn // buffered pipe mode: writes are fed to the peer
 	NoLog       bool  // do not keep Written / write events (long streams)
 	ErrWithData bool  // deliver the final bytes and the end error in the same Read call (io.Reader allows it)
+	OnWrite     func(total int) // called (without the lock) before Write returns, with the bytes written so far
 	BlockWrites bool  // the peer is not draining: Write blocks until the write deadline passes or Close
 	Events      []Event
 	Written     []byte
@@ -171,6 +172,12 @@ func (c *Conn) Write(p []byte) (int, error) {
 	n, err := c.write(p)
 	if c.peer != nil && n > 0 {
 		c.peer.Feed(p[:n]) // outside c.mu: both ends may write at once
+	}
+	if c.OnWrite != nil && n > 0 {
+		c.mu.Lock()
+		total := len(c.Written)
+		c.mu.Unlock()
+		c.OnWrite(total) // the peer may react to these bytes before the writer gets control back
 	}
 	return n, err
 }
